@@ -6,6 +6,7 @@ BSDismemberSkinInstance::partitions under a BSDismemberSkinInstance type test.  
 summing to one quantify over runtime triangle and weight values and are not decided."""
 from facts import is_node, walk, where, show
 import flow
+import report
 
 NIF = "nifly::NifFile"
 SKINPART = "nifly::NiSkinPartition"
@@ -173,6 +174,78 @@ def run(F, chk):
                           "%s erases the partitions before it builds the collapse map from numPartitions: cached triangle "
                           "assignments to higher partitions are not renumbered and point past the partition list" % fn["name"])
     chk.floor(R3, 1)
+
+    # ---------------------------------------------------------------- R10.4
+    R4 = chk.rule("R10.4", "a partition's triangle lists are stored in the file only under its `hasFaces` flag (NiSkinPartition::Sync): a "
+                           "function that fills `triangles` / `trueTriangles` of a partition from anything other than the partition's "
+                           "own sibling list switches `hasFaces` on for the same partition, under no more conditions than the fill — "
+                           "otherwise the saved file announces numTriangles and stores none, and after a reload those triangles lie "
+                           "in no partition")
+    import paths as _paths
+    import pairing as _pairing
+    PB = "nifly::NiSkinPartition::PartitionBlock"
+    LISTS = ("triangles", "trueTriangles")
+    gate_seen = False
+    syncfn = F.fn1("nifly::NiSkinPartition::Sync")
+    for n in walk(syncfn["body"]):
+        if n["k"] == "If" and is_node(n.get("cond")) and any(x["k"] == "Member" and x.get("name") == "hasFaces" for x in walk(n["cond"])) \
+                and any(x["k"] == "Member" and x.get("name") == "triangles" and x.get("owner") == PB for x in walk(n.get("then") or {})):
+            gate_seen = True
+    if not gate_seen:
+        raise report.Broken("R10.4: NiSkinPartition::Sync no longer stores `triangles` under `hasFaces`")
+
+    def _obj(env, m):
+        b = m.get("base")
+        return _paths.THIS if b is None else env.path(b)
+
+    n4 = 0
+    for fn in sorted(F.fns.values(), key=lambda f: f["id"]):
+        if not fn.get("body") or fn.get("tmpl") == "pattern" or not (fn.get("file") or "").startswith(("src/", "include/")):
+            continue
+        if fn.get("short") in ("Sync", "Get", "Put") or fn.get("ctor"):
+            continue
+        fills, flags = [], []
+        env = None
+        for n in walk(fn["body"]):
+            tgt = src = None
+            if n["k"] == "OpCall" and n.get("op") == "=" and len(n.get("args", [])) == 2:
+                tgt, src = n["args"]
+            elif n["k"] == "Call" and n.get("ext") and n.get("short") in ("push_back", "emplace_back", "insert", "assign") and is_node(n.get("recv")):
+                tgt, src = n["recv"], {"k": "Tuple", "args": n.get("args", [])}
+            elif n["k"] == "Assign" and n["op"] == "=" and is_node(n["l"]) and n["l"]["k"] == "Member" and n["l"].get("name") == "hasFaces" \
+                    and n["l"].get("owner") == PB:
+                if is_node(n["r"]) and n["r"].get("val") in (1, True):
+                    env = env or _paths.PathEnv(F, fn)
+                    flags.append((n, _obj(env, n["l"])))
+                continue
+            while is_node(tgt) and tgt["k"] == "Cast":
+                tgt = tgt["e"]
+            if not (is_node(tgt) and tgt["k"] == "Member" and tgt.get("name") in LISTS and tgt.get("owner") == PB):
+                continue
+            env = env or _paths.PathEnv(F, fn)
+            obj = _obj(env, tgt)
+            sibling = False
+            for x in walk(src if is_node(src) else {"k": "Tuple", "args": []}):
+                if x["k"] == "Member" and x.get("name") in LISTS and x.get("owner") == PB and x.get("name") != tgt["name"]:
+                    sibling = True  # derived from the partition's other list: non-empty only if that one already was
+            if is_node(src) and src.get("k") == "Construct" and not src.get("args"):
+                continue  # `= {}`
+            if sibling:
+                continue
+            fills.append((n, obj, tgt["name"]))
+        if not fills:
+            continue
+        sig = _pairing.guard_sig(F, fn, [x[0] for x in fills] + [x[0] for x in flags])
+        for n, obj, lst in fills:
+            n4 += 1
+            ok = any(fo == obj and sig.get(id(fnode), frozenset()) <= sig.get(id(n), frozenset()) for fnode, fo in flags)
+            chk.instance(R4, ok=ok, sample={"fn": fn["name"], "fills": "%s.%s" % (_paths.render(obj) if obj else "?", lst)})
+            if not ok:
+                chk.violation("R10.4", "C10/R10.4:%s:%s" % (fn["name"], lst), where(fn, n),
+                              "%s fills `%s` of a partition (%s) without switching that partition's `hasFaces` on: the file written "
+                              "from it announces the triangles (numTriangles) but stores none, so after a reload the shape's "
+                              "triangles lie in no partition" % (fn["name"], lst, _paths.render(obj) if obj else "?"))
+    chk.floor(R4, 3)
 
     chk.assumptions += ["exact cover of triangles, the per-game bone limit and weights summing to one are value-level and not decided"]
     chk.extra["explanation"] = ("only the clause 'the dismember partition list stays aligned with the partitions' is decided "
